@@ -58,6 +58,23 @@ func (t *TableInfo) ColNames() []string {
 	return out
 }
 
+// RowidName is a keyword that still addresses the rowid of this table (a real
+// column named rowid / oid / _rowid_ shadows the keyword), "" if none is left.
+func (t *TableInfo) RowidName() string {
+	for _, cand := range []string{"rowid", "_rowid_", "oid"} {
+		free := true
+		for _, c := range t.Cols {
+			if strings.EqualFold(c.Name, cand) {
+				free = false
+			}
+		}
+		if free {
+			return cand
+		}
+	}
+	return ""
+}
+
 func (t *TableInfo) PKIndex() *IndexInfo {
 	for i := range t.Indexes {
 		if t.Indexes[i].Origin == "pk" {
@@ -177,6 +194,7 @@ func Profiles(tier string, seed int64) []M {
 			add(M{"page_size": ps, "rows": rows, "frag": i%2 == 1})
 		}
 		add(M{"page_size": 512, "rows": 5000, "features": []string{"plain", "alias", "wr"}}) // depth 3
+		add(M{"page_size": 1024, "rows": 12000, "features": []string{"plain", "alias"}})  // interior pages with a large fan-out
 		add(M{"page_size": 1024, "rows": 800, "auto_vacuum": 1, "frag": true})
 		add(M{"page_size": 4096, "rows": 600, "auto_vacuum": 2, "frag": true, "incr_vacuum": true})
 		add(M{"page_size": 1024, "rows": 900, "frag": true, "vacuum": true})
@@ -228,7 +246,11 @@ func ProfileName(i int, m M) string {
 // index_xinfo column (key columns, then the appended rowid / pk columns) with
 // its collation and direction.  Expression columns take their text from the
 // generator metadata.
-func OrderByIndex(ix *IndexInfo, gm GenIndexMeta) (string, error) {
+func OrderByIndex(ix *IndexInfo, gm GenIndexMeta, rowidName ...string) (string, error) {
+	rid := "rowid"
+	if len(rowidName) > 0 && rowidName[0] != "" {
+		rid = rowidName[0]
+	}
 	var parts []string
 	ei := 0
 	for _, c := range ix.Cols {
@@ -237,7 +259,7 @@ func OrderByIndex(ix *IndexInfo, gm GenIndexMeta) (string, error) {
 		case c.Cid >= 0 && c.Name != nil:
 			ex = QuoteIdent(*c.Name)
 		case c.Cid == -1:
-			ex = "rowid"
+			ex = rid
 		case c.Cid == -2:
 			if ei >= len(gm.Exprs) {
 				return "", fmt.Errorf("index %s: expression column without generator metadata", ix.Name)
@@ -263,7 +285,10 @@ func OrderByIndex(ix *IndexInfo, gm GenIndexMeta) (string, error) {
 // OrderByTable is the scan order of a table: rowid, or the primary key.
 func OrderByTable(t *TableInfo) (string, error) {
 	if t.WR == 0 {
-		return "rowid", nil
+		if n := t.RowidName(); n != "" {
+			return n, nil
+		}
+		return "", fmt.Errorf("table %s: every rowid keyword is shadowed by a column", t.Name)
 	}
 	pk := t.PKIndex()
 	if pk == nil {
